@@ -561,6 +561,10 @@ def corpus():
               bends=[(sec + 5, -100, 2, 33, 0)]),
         # a time signature a third of a tick after 0 (default 4/4 still written), two tempos snapping to one tick
         _desc(tempos=[(sec, 400000), (sec + 10, 700000)], tsigs=[(150000, 3, 4)], notes=[n(60, 0, sec), n(60, sec, 2 * sec)]),
+        # three tempos at time 0, the first and the last equal by value (the writer skips BOTH as "the initial tempo")
+        _desc(tempos=[(0, 600000), (0, 750000), (0, 600000)], notes=[n(64, sec, 3 * sec, ins=1)]),
+        # two time signatures and two keys inside one tick, later one stored first (storage order wins on the tick)
+        _desc(tsigs=[(200000, 4, 16), (100000, 2, 4)], ksigs=[(200000, 3, 1), (100000, 5, 0)], notes=[n(64, sec, 3 * sec)]),
         # same tempo twice in a row (the loader merges them)
         _desc(tempos=[(0, 600000), (sec, 600000), (2 * sec, 500000)], notes=[n(64, sec, 3 * sec, ins=1, dr=1)]),
     ]
@@ -570,13 +574,37 @@ def corpus():
     return out
 
 
+def exhaustive(tier):
+    """small scopes enumerated completely: every storage order of a tempo list, every assignment of
+    (instrument, program, is_drum) from a small set to 2 (quick) / 3 (thorough) notes"""
+    import itertools
+    sec = 220 * 1000000
+    ds = []
+    tsets = [[(0, 400000), (sec + 7, 819249), (2 * sec, 250000), (3 * sec + 110000, 1000000)]]
+    if tier == 'thorough':
+        tsets += [[(sec, 600000), (sec + 100, 500000), (2 * sec, 600000), (5 * sec, 333333)],
+                  [(0, 500000), (1, 1500000), (sec, 1500000)]]
+    for ts in tsets:
+        for perm in itertools.permutations(ts):
+            ds.append(_desc(tempos=perm, notes=[[60, 80, sec // 2 + 3, 4 * sec, 0, 0, 0], [60, 90, 4 * sec, 5 * sec + 9, 0, 0, 0]],
+                            ccs=[[3 * sec + 1, 64, 127, 0, 0, 0]]))
+    keys = [(i, p, dr) for i in (0, 1) for p in (0, 5) for dr in (0, 1)]
+    k = 3 if tier == 'thorough' else 2
+    for combo in itertools.product(keys, repeat=k):
+        notes = [[60 + j, 70 + j, sec * (j + 1) + j, sec * (j + 2), kk[0], kk[1], kk[2]] for j, kk in enumerate(combo)]
+        ds.append(_desc(notes=notes, bends=[[sec, 100, combo[0][0], combo[0][1], combo[0][2]]]))
+    return ds
+
+
 def cases(rng, tier, n=None):
-    k = 450 if tier == 'quick' else 12000
+    k = 450 if tier == 'quick' else 40000
     if n is not None:
         k = max(0, n // 2)
-    out = []
+    ds = exhaustive(tier) if n is None else []
     for i in range(k):
-        d = gen_desc(rng, big=(i % 5 == 0))
+        ds.append(gen_desc(rng, big=(i % 5 == 0)))
+    out = []
+    for d in ds:
         out.append({'op': 'write', 'input': d})
         out.append({'op': 'rt', 'input': d})
     return out
